@@ -148,6 +148,64 @@ def widen_program(case):
     return src, exp
 
 
+# ------------------------------------------------------------------ leaving a loop by `return` (own closed-form model)
+# docs (statements): `return` ends the function at once; the for-loop's step runs after a COMPLETED iteration only.
+
+L_STEPS = {"plus": "i = i + 1", "post": "i++", "call": "i = nxt(i)", "tick": "i = i + tick()", "guard": "i = i + 1 + 0 % (r - i)"}
+
+
+@st.composite
+def loop_case(draw):
+    return {"kind": "loop", "r": draw(st.integers(0, 4)), "n": draw(st.integers(0, 5)), "step": draw(st.sampled_from(sorted(L_STEPS))),
+            "body_echo": draw(st.booleans()), "nested": draw(st.booleans()), "method": draw(st.booleans()),
+            "use": draw(st.sampled_from(["echo", "arith", "decl"]))}
+
+
+def loop_program(case):
+    r, n, step = case["r"], case["n"], case["step"]
+    if step == "guard" and r >= n:
+        step = "plus"  # r - i would reach 0 in the step after iteration i = r ... which never completes only if r < n
+    body = ('echo("b" + i); ' if case["body_echo"] else "") + "if (i == r) { return 100 + i; }"
+    loop = f"for (int i = 0; i < n; {L_STEPS[step]}) {{ {body} }}"
+    if case["nested"]:
+        loop = f"for (int j = 0; j < 2; j = j + 1) {{ echo(\"o\" + j); {loop} }}"
+    fn = f"function f(int r, int n) -> int {{ {loop} return 0 - 1; }}"
+    helpers = "function nxt(int v) -> int { return v + 1; }\nfunction tick() -> int { echo(\"t\"); return 1; }\n"
+    if case["method"]:
+        decl = "class H { public constructor() -> H { return this; } public " + fn + " }\n"
+        call = "h.f(%d, %d)" % (r, n)
+        pre = "H h = new H(); "
+    else:
+        decl = fn + "\n"
+        call = "f(%d, %d)" % (r, n)
+        pre = ""
+    use = {"echo": f"echo({call});", "arith": f"echo({call} + 1);", "decl": f"int v = {call}; echo(v);"}[case["use"]]
+    src = helpers + decl + "function main() -> void { " + pre + use + " echo(\"end\"); }\n"
+    # expected
+    out = []
+    ret = None
+    for j in range(2 if case["nested"] else 1):
+        if case["nested"]:
+            out.append(f"o{j}")
+        i = 0
+        while i < n:
+            if case["body_echo"]:
+                out.append(f"b{i}")
+            if i == r:
+                ret = 100 + i
+                break
+            if step == "tick":
+                out.append("t")
+            i += 1
+        if ret is not None:
+            break
+    if ret is None:
+        ret = -1
+    out.append(str(ret + 1 if case["use"] == "arith" else ret))
+    out.append("end")
+    return src, out
+
+
 class C07(Check):
     prop = "C07"
     rule = ("programs from the typed `classic` generator (1-4 functions + main, all operators, casts, arrays, loops, "
@@ -176,9 +234,27 @@ class C07(Check):
             return {"why": "an int stored into a long slot did not behave as a long", "expected": want, "got": list(r.stdout_lines), "source": src}
         return None
 
+    def loop_run(self, case, sc, stats=None):
+        src, want = loop_program(case)
+        r = progrun.run_cli(self.drv, sc, src)
+        if r.proc.timeout:
+            return None
+        if stats is not None:
+            stats.record(case, case["r"] < case["n"], tags=["loop_return_family", "step_" + case["step"]],
+                         sample={"source": src, "expected": want})
+        if r.diag and r.diag["cat"] in ("Lexical", "Parse", "Semantic"):
+            return {"why": f"well-typed loop program rejected: {r.diag}", "source": src}
+        if r.proc.crashed() or r.rc != 0:
+            return {"why": f"loop program failed: rc={r.rc} {r.stderr_lines[-1:]}", "source": src, "expected": want, **r.proc.brief()}
+        if list(r.stdout_lines) != want:
+            return {"why": "returning from inside a for loop: output differs", "expected": want, "got": list(r.stdout_lines), "source": src}
+        return None
+
     def run_case(self, p, sc, stats=None):
         if p.get("kind") == "widen":
             return self.widen_run(p, sc, stats)
+        if p.get("kind") == "loop":
+            return self.loop_run(p, sc, stats)
         try:
             ref = ref_classic.run_reference(p)
         except ref_classic.Undocumented as u:
@@ -221,7 +297,7 @@ class C07(Check):
             return self.run_case(case, sc)
 
     def classify(self, case, why=None):
-        if case.get("kind") == "widen":
+        if case.get("kind") in ("widen", "loop"):
             return None
         for k, pred in SIGNATURES.items():
             if pred(case):
@@ -239,7 +315,7 @@ def _worker(widx, wseed, tier, check):
     with Scratch("c07") as sc:
         def prop(case, stats):
             for k in act:
-                if case.get("kind") != "widen" and SIGNATURES[k](case):
+                if case.get("kind") not in ("widen", "loop") and SIGNATURES[k](case):
                     stats.excluded[k] = stats.excluded.get(k, 0) + 1
                     return
             why = check.run_case(case, sc, stats)
@@ -249,6 +325,9 @@ def _worker(widx, wseed, tier, check):
         if f:
             failures.append(f)
         f = hyp_search(widen_case(), prop, common.derive_seed(wseed, "widen"), 60 if tier == "quick" else 1500, stats)
+        if f:
+            failures.append(f)
+        f = hyp_search(loop_case(), prop, common.derive_seed(wseed, "loop"), 60 if tier == "quick" else 1500, stats)
         if f:
             failures.append(f)
     return {"stats": stats.export(), "failures": failures}
